@@ -427,6 +427,71 @@ def run_check(tier, seed, t0):
             if rec.events:
                 cache_traces.append({"id": len(cache_traces) + 1, "ev": rec.events[:30000],
                                      "src": "random"})
+    # the same response as dict, as JSON text and inside a {"value": ...} envelope
+    n_forms = 0
+    from cr.cube.cube import Cube, CubeSet
+    for (s_, r_, c_) in triples:
+        resp0, xf0 = pristine(s_, r_, c_)
+        forms = {"dict": lambda: copy.deepcopy(resp0), "text": lambda: json.dumps(resp0),
+                 "envelope": lambda: {"value": copy.deepcopy(resp0)},
+                 "envelope_text": lambda: json.dumps({"value": resp0})}
+        ref = None
+        for fname, mk in forms.items():
+            try:
+                parts = Cube(mk(), transforms=copy.deepcopy(xf0)).partitions
+                vals = [[relation_to_py(read(p, q)) for q in PROPS] for p in parts]
+            except Exception as e:  # noqa
+                vals = "raise %r" % (e,)
+            n_forms += 1
+            if ref is None:
+                ref = vals
+            elif not _same(vals, ref):
+                mismatches.append((Mismatch(prop_id, None,
+                                            "the response given as %s yields different results "
+                                            "than the same response given as a dict" % fname, {},
+                                            tags={"kind": "form", "form": fname, "source": "forms"}),
+                                   {"scn": s_["name"]}))
+    # a numeric-measure cube set (0-D + 1-D member cubes, padded in place) in every form
+    try:
+        import multicube
+        from scenarios import cat as _cat, scenario as _scenario
+        yk = dict(yvals=(0, 1, 3), ymeasures=("mean",), valid_counts=True)
+        sN, rN, _, e1 = multicube.records_for(_scenario("nm_nub", [], **yk), "c01", seed + 5, 1, 2)
+        sNB, rNB, _, e2 = multicube.records_for(_scenario("nm_cat", [_cat("B", 3, miss=[2])], **yk),
+                                                 "c01", seed + 6, 1)
+        if not e1 and not e2 and rN and rNB:
+            r0 = envelope.build_response(sN, rN[0], configs.DEFAULT)
+            r1 = envelope.build_response(sNB, rNB[0], configs.DEFAULT)
+            ref = None
+            for fname, mk in (("dict", lambda r: copy.deepcopy(r)), ("text", json.dumps),
+                              ("envelope", lambda r: {"value": copy.deepcopy(r)}),
+                              ("envelope_text", lambda r: json.dumps({"value": r}))):
+                for reuse in (False, True):
+                    a, b = mk(r0), mk(r1)
+                    try:
+                        sets = [CubeSet([a, b], [{}, {}], None, 0)]
+                        if reuse:       # a second set over the SAME (already padded) objects
+                            sets.append(CubeSet([a, b], [{}, {}], None, 0))
+                        vals = [[(type(p).__name__, relation_to_py(p.means)) for p in ps]
+                                for cs in sets for ps in cs.partition_sets]
+                        vals = vals[-1:]
+                    except Exception as e:  # noqa
+                        vals = "raise %r" % (e,)
+                    n_forms += 1
+                    if ref is None:
+                        ref = vals
+                    elif not _same(vals, ref):
+                        mismatches.append((Mismatch(
+                            prop_id, None,
+                            "a numeric-measure cube set given as %s%s yields different partitions "
+                            "than given as dicts: %s vs %s" %
+                            (fname, " (objects reused for a second set)" if reuse else "",
+                             str(vals)[:150], str(ref)[:150]), {},
+                            tags={"kind": "form", "form": fname, "reuse": reuse,
+                                  "source": "cubeset_forms"}), {}))
+    except Exception as e:  # noqa
+        print("MACHINERY-ERROR: forms check failed: %r" % (e,), file=sys.stderr)
+        return 2
     # the repository's own integration tests under the hook
     repo_traces = []
     if hook_ok:
@@ -494,7 +559,7 @@ def run_check(tier, seed, t0):
         "scn": "session", "mode": "bfs+sim", "tlc_distinct": stats["states"],
         "generated": stats["generated"], "distinct": n_replayed,
         "evaluations": n_reads + n_random, "nontrivial": n_replayed + n_random,
-        "features": {"schedules": n_replayed, "random_schedules": n_random,
+        "features": {"schedules": n_replayed, "random_schedules": n_random, "forms": n_forms,
                      "cache_traces": len(cache_traces), "cache_streams": n_streams,
                      "cache_events": total, "repo_test_traces": len(repo_traces),
                      "hook_installed": int(hook_ok),
